@@ -14,6 +14,7 @@
 //    the order the specification calls "flattened";
 //  * numbers that may exceed 2^31 (TLC integers are 32 bit) are arrays of base
 //    2^15 digits, least significant first, no leading zero digit ("limbs").
+#include <algorithm>
 #include <cassert>
 #include <map>
 #include <memory>
@@ -133,6 +134,109 @@ template <> struct SeqTraits<3>
   static Json to(const vec &v) { return j3(v); }
 };
 
+// every way of writing the loop over begin() .. end(); a loop body never runs more than `cap` times
+template <int N>
+static void walkStyles(const multidim_index_sequence<N> &seq, bool nonempty, Json &o)
+{
+  typedef SeqTraits<N> T;
+  typedef multidim_index_iterator<N> It;
+  const size_t total = seq.total_indices();
+  const size_t cap = 8 * total + 16;
+  size_t n;
+  {  // range-for
+    Json w = Json::array();
+    n = 0;
+    for (auto c : seq) { w.push(T::to(c)); if (++n > cap) break; }
+    o.set("walk_range_for", w);
+  }
+  {  // for (it = begin; it != end; ++it)
+    Json w = Json::array();
+    n = 0;
+    for (It it = seq.begin(); it != seq.end(); ++it) { w.push(T::to(*it)); if (++n > cap) break; }
+    o.set("walk_for_pre", w);
+  }
+  {  // std::for_each(begin, end, f)
+    Json w = Json::array();
+    n = 0;
+    std::for_each(seq.begin(), seq.end(), [&](const typename T::vec &c) { if (++n <= cap) w.push(T::to(c)); });
+    o.set("walk_std_for_each", w);
+  }
+  {  // for (it = begin; it != end; it++)
+    Json w = Json::array();
+    n = 0;
+    for (It it = seq.begin(); it != seq.end(); it++) { w.push(T::to(*it)); if (++n > cap) break; }
+    o.set("walk_for_post", w);
+  }
+  Json wp = Json::array(), dw = Json::array(), dp = Json::array();
+  if (nonempty) {
+    {  // it = begin; while (++it != end) body(*it)
+      It it = seq.begin();
+      const It e = seq.end();
+      n = 0;
+      while (++it != e) { wp.push(T::to(*it)); if (++n > cap) break; }
+    }
+    {  // it = begin; do body(*it); while (++it != end);
+      It it = seq.begin();
+      const It e = seq.end();
+      n = 0;
+      do { dw.push(T::to(*it)); if (++n > cap) break; } while (++it != e);
+    }
+    {  // total-1 times: body(*++it)
+      It it = seq.begin();
+      for (size_t k = 0; k + 1 < total; ++k) dp.push(T::to(*++it));
+    }
+  }
+  o.set("walk_while_pre", wp);
+  o.set("walk_do_while_pre", dw);
+  o.set("walk_deref_preinc", dp);
+  {  // total times: (++it == it) and the position of the value of ++it
+    Json eq = Json::array(), ix = Json::array();
+    It it = seq.begin();
+    for (size_t k = 0; k < total; ++k) {
+      const It v = ++it;
+      eq.push(v == it && !(v != it));
+      ix.push((long long)v.current());
+    }
+    o.set("preinc_equals_it", eq);
+    o.set("preinc_value_index", ix);
+  }
+  o.set("begin_is_end", seq.begin() == seq.end());
+  o.set("begin_ne_end", seq.begin() != seq.end());
+}
+
+// the VALUE of the postfix increment
+template <int N>
+static Json doIterPost(const Json &arg)
+{
+  typedef SeqTraits<N> T;
+  typedef multidim_index_iterator<N> It;
+  Json o = Json::object();
+  multidim_index_sequence<N> seq(T::from(arg["d"]));
+  const size_t total = seq.total_indices();
+  const size_t cap = 8 * total + 16;
+  {  // while (it != end) body(*it++)
+    Json w = Json::array();
+    It it = seq.begin();
+    const It e = seq.end();
+    size_t n = 0;
+    while (it != e) { w.push(T::to(*it++)); if (++n > cap) break; }
+    o.set("walk_deref_postinc", w);
+  }
+  {  // total times: old = it; v = it++;  v == old && v != it;  current() of v
+    Json isold = Json::array(), ix = Json::array();
+    It it = seq.begin();
+    for (size_t k = 0; k < total; ++k) {
+      const It old = it;
+      const It v = it++;
+      isold.push(v == old && v != it);
+      ix.push((long long)v.current());
+    }
+    o.set("postinc_value_is_old", isold);
+    o.set("postinc_value_index", ix);
+  }
+  return o;
+}
+
 template <int N>
 static Json doSeq(const Json &arg)
 {
@@ -172,6 +276,7 @@ static Json doSeq(const Json &arg)
   }
   o.set("iter_manual", it2);
   o.set("iter_index", idx);
+  walkStyles<N>(seq, arg.has("nonempty") ? arg["nonempty"].boolean() : total > 0, o);
   return o;
 }
 
@@ -700,6 +805,8 @@ struct World
     if (a == "Arr3") return doArr3(arg);
     if (a == "ForEach") return doForEach(arg);
     if (a == "Interleave3") return doInterleave3(arg);
+    if (a == "IterPost2") return doIterPost<2>(arg);
+    if (a == "IterPost3") return doIterPost<3>(arg);
     if (a == "BigSeq3") return doBigSeq3(arg);
     if (a == "BigSeq2") return doBigSeq2(arg);
     if (a == "BigIter3") return doBigIter3(arg);
